@@ -531,6 +531,47 @@ CHECKS = {
                 "(an action scheduled on an idle trampoline runs at once). Two threads inside one observer are C43's business.",
         "technique": _K2_TECH + "; symbolic execution of Observable.subscribe over all argument shapes x subscribe-function behaviours",
     },
+    "C02": {
+        "text": "Three contracts compose by induction over the depth of the pipeline. (1) K5 OWNERSHIP, per subscribe function of the "
+                "library (operators/, observable/; 104 functions, each with its nested handlers, helpers and actions): every "
+                "`X.subscribe(...)` / `subscribe_safe` (a source subscription) and every `S.schedule*(...)` (a pending action) stands in "
+                "an owning position - returned, put into a Composite/Serial/SingleAssignment/MultipleAssignment/RefCount/Scheduled "
+                "disposable or a list handed to one, disposed by the function handed to `Disposable(...)`, returned by a helper whose "
+                "every call is owned, or returned by an action (owned by its scheduled item) - and the owner is reachable from the "
+                "disposable the subscribe function returns (least fixpoint over the ownership graph). Ref-counted shares "
+                "(`add_ref`, `GroupedObservable(.., rcd)`) are handed to the subscriber and to nobody inside the stage. "
+                "(2) AutoDetachObserver (K2, the C01 contract): a terminal notification disposes the subscription on normal and "
+                "exceptional exit of the subscriber's callback; dispose() stops the gate and disposes the subscription. "
+                "(3) Observable.subscribe: what the subscribe function returns becomes that subscription; the handle returned to the "
+                "caller is the wrapper's dispose. With the container contracts of C26 (a container disposes all it holds and whatever is "
+                "added after it was disposed) a terminal notification at the subscriber disposes, level by level, every subscription "
+                "any stage opened, whenever it was opened.",
+        "note": "The ownership analysis is a contract checker on the real AST (flow-insensitive: a resource owned on one path only is not "
+                "distinguished from one owned on all; sound under A-static - no reflection, names bound once per scope as written). "
+                "Replacement before the end (a Serial slot re-pointed, a MultipleAssignment slot overwritten by the next scheduled "
+                "tick) counts as owned: the container contracts (C26) say when the old item is released; for MultipleAssignment the "
+                "overwritten item is an action that already ran. `X.connect(...)` - the shared connection of a multicast - is C24's "
+                "business and not a resource here (auto_connect stays connected by design). Outside subscribe functions and therefore "
+                "outside this contract: ConnectableObservable.connect, hot marbles, to_async, to_future (C41). The induction over the "
+                "pipeline depth and the appeal to C26 are argued in DESIGN.md, not machine-checked as one theorem. Thorough tier: "
+                "must-fail mutants of the ownership analysis and a native cross-check (ownrun.py: 70 pipeline shapes over logging cold "
+                "sources x termination patterns x every dispose time) whose disagreement with a passing analysis is a checker crash.",
+        "technique": "K5 ownership contracts by least-fixpoint analysis on the real AST + K2 class refinement (AutoDetachObserver) + contract of Observable.subscribe; native TestScheduler replay",
+    },
+    "C03": {
+        "text": "The same three contracts as C02, read for dispose(): (2) AutoDetachObserver.dispose() sets the gate (every later "
+                "on_next / on_error / on_completed of that edge returns without calling the subscriber - invariant `stopped`, proved for "
+                "re-entrant calls too) and disposes the subscription; (3) the handle Observable.subscribe returns IS that dispose; "
+                "(1) by ownership that disposal reaches, synchronously and level by level, every source subscription and every pending "
+                "scheduled action of every stage, so no handler of the pipeline is entered afterwards: handlers are only ever called "
+                "through their own edge's gate, actions only by items that are now cancelled (C28/C30: a cancelled item never runs). "
+                "Shares still held by a live group / window subscriber keep the RefCountDisposable's underlying subscription open - the "
+                "exception the property itself makes (C27).",
+        "note": "As C02. 'At that instant': disposal is synchronous code (no scheduling on the way) - by the shapes admitted as owning "
+                "positions, which are all direct containment. Single thread / virtual time only, as the property says; concurrent "
+                "dispose is C25-C27 / C43.",
+        "technique": "K5 ownership contracts by least-fixpoint analysis on the real AST + K2 class refinement (AutoDetachObserver) + contract of Observable.subscribe; native TestScheduler replay",
+    },
     "C20": {
         "text": "Every method of the real Subject (subscribe core, InnerSubscription.dispose, on_next/on_error/on_completed with the "
                 "inherited Observer gates, dispose) is proved to refine the spec machine from an arbitrary state satisfying the coupling "
